@@ -1,0 +1,85 @@
+//go:build verif
+
+// Copyright Istio Authors
+//
+// Licensed under the Apache License, Version 2.0 (the "License");
+// you may not use this file except in compliance with the License.
+// You may obtain a copy of the License at
+//
+//     http://www.apache.org/licenses/LICENSE-2.0
+//
+// Unless required by applicable law or agreed to in writing, software
+// distributed under the License is distributed on an "AS IS" BASIS,
+// WITHOUT WARRANTIES OR CONDITIONS OF ANY KIND, either express or implied.
+// See the License for the specific language governing permissions and
+// limitations under the License.
+
+package inject
+
+import (
+	corev1 "k8s.io/api/core/v1"
+	metav1 "k8s.io/apimachinery/pkg/apis/meta/v1"
+	"k8s.io/apimachinery/pkg/labels"
+
+	"istio.io/api/annotation"
+	"istio.io/api/label"
+	"istio.io/istio/pkg/slices"
+	"istio.io/istio/pkg/verif"
+)
+
+// ---------------------------------------------------------------------------------------------
+// C19: the injection decision cascade
+// ---------------------------------------------------------------------------------------------
+
+// selApplies: the label selector is valid, not empty and matches the pod's labels (validity and
+// matching are the Kubernetes library's; they are uninterpreted here).
+func selApplies(sel metav1.LabelSelector, lbls map[string]string) bool {
+	selector, err := metav1.LabelSelectorAsSelector(&sel)
+	return err == nil && !selector.Empty() && selector.Matches(labels.Set(lbls))
+}
+
+func anyApplies(sels []metav1.LabelSelector, n int, lbls map[string]string) bool {
+	return verif.Exists(func(j int) bool { return 0 <= j && j < n && j < len(sels) && selApplies(sels[j], lbls) })
+}
+
+//verif:contract injectRequired
+//verif:prop C19
+func ctInjectRequired(ignored []string, config *Config, podSpec *corev1.PodSpec, metadata metav1.ObjectMeta) {
+	verif.Requires("config-and-spec-present", config != nil && podSpec != nil)
+	required := injectRequired(ignored, config, podSpec, metadata)
+
+	// the pod's own choice: its inject label, else its inject annotation
+	sel := metadata.Annotations[annotation.SidecarInject.Name]
+	if l, ok := metadata.Labels[label.SidecarInject.Name]; ok {
+		sel = l
+	}
+	eligible := !podSpec.HostNetwork && !slices.Contains(ignored, metadata.Namespace)
+	legal := config.Policy == InjectionPolicyDisabled || config.Policy == InjectionPolicyEnabled
+	explicit := sel == "true" || sel == "false"
+	never := anyApplies(config.NeverInjectSelector, len(config.NeverInjectSelector), metadata.Labels)
+	always := anyApplies(config.AlwaysInjectSelector, len(config.AlwaysInjectSelector), metadata.Labels)
+
+	// from the statement, in order: "host networking and ignored namespaces (never)"
+	verif.Ensures("host-network-never", !podSpec.HostNetwork || !required)
+	verif.Ensures("ignored-namespace-never", !slices.Contains(ignored, metadata.Namespace) || !required)
+	// from the code: an illegal namespace policy value disables injection altogether
+	verif.Ensures("illegal-policy-never", legal || !required)
+	// "the pod's inject label, else its inject annotation"
+	verif.Ensures("explicit-true-injects", !(eligible && legal && sel == "true") || required)
+	verif.Ensures("explicit-false-does-not", !(eligible && legal && sel == "false") || !required)
+	// "else never/always-inject selectors"
+	verif.Ensures("never-selector-wins", !(eligible && legal && !explicit && never) || !required)
+	verif.Ensures("always-selector-next", !(eligible && legal && !explicit && !never && always) || required)
+	// "else the namespace policy"
+	verif.Ensures("namespace-policy-last", !(eligible && legal && !explicit && !never && !always) || required == (config.Policy == InjectionPolicyEnabled))
+}
+
+//verif:invariant injectRequired 1
+func invNeverLoop(config *Config, metadata metav1.ObjectMeta, rangeindex int) bool {
+	return rangeindex < len(config.NeverInjectSelector) && !anyApplies(config.NeverInjectSelector, rangeindex+1, metadata.Labels)
+}
+
+//verif:invariant injectRequired 2
+func invAlwaysLoop(config *Config, metadata metav1.ObjectMeta, rangeindex int) bool {
+	return rangeindex < len(config.AlwaysInjectSelector) && !anyApplies(config.AlwaysInjectSelector, rangeindex+1, metadata.Labels)
+}
